@@ -23,6 +23,9 @@ type SetScenario struct {
 	// HoldMs: task requests are answered only after this delay (the first wait
 	// group is then issued while requests are outstanding)
 	HoldMs int `json:"hold_ms"`
+	// PollMs: before the wait groups, WaitUntilComplete is polled (each call giving up at once) for
+	// this long; a poll that reports completion is recorded and ends the polling
+	PollMs int `json:"poll_ms"`
 }
 
 // SetRun starts the set, answers every task request at once, issues the
@@ -252,6 +255,18 @@ func SetRun(run int, sc SetScenario, T time.Duration) []SetRec {
 	mu.Lock()
 	add(-1, Rec{Ev: "started", Ok: ok})
 	mu.Unlock()
+	if sc.PollMs > 0 {
+		t0 := time.Now()
+		early := false
+		for time.Since(t0) < time.Duration(sc.PollMs)*time.Millisecond && !early {
+			wctx, wc := context.WithTimeout(context.Background(), 0)
+			early = ps.WaitUntilComplete(wctx)
+			wc()
+		}
+		mu.Lock()
+		add(-1, Rec{Ev: "setwait", Ok: early, N: 0})
+		mu.Unlock()
+	}
 	for _, group := range sc.Waits {
 		var wg sync.WaitGroup
 		res := make([]bool, len(group))
